@@ -102,6 +102,7 @@ let defaults = [
   (* idioms: percent chance each per main *)
   "id_counter", 0; "id_adder", 0; "id_loopcap", 0; "id_reccap", 0; "id_compose", 0;
   "id_alias", 0; "id_catch", 0; "id_shadow", 0; "id_order", 0; "id_tail", 0; "id_agg", 0; "id_mutual", 0;
+  "id_pipe", 0; "pp_pipe", 0;
   "id_repeat", 1;
 ]
 
@@ -129,7 +130,9 @@ let profiles = [
             "i_call", 22; "it_call", 14; "it_loop", 10; "t_rec", 14; "t_arr", 14; "it_func", 10];
   "tailrec", ["id_tail", 100; "f_tail", 0; "f_rec", 30; "id_mutual", 40; "budget_main", 7000; "tail_lo", 150; "tail_hi", 450;
               "nfuncs_max", 2; "main_items", 3; "depth", 2];
-  "mix", ["id_counter", 15; "id_adder", 10; "id_loopcap", 10; "id_reccap", 10; "id_compose", 10; "id_alias", 25;
+  "pipe", ["pp_pipe", 65; "id_pipe", 100; "id_repeat", 2; "i_call", 25; "i_fcall", 10; "it_call", 14; "it_func", 14; "t_fun", 14;
+           "id_tail", 25; "id_order", 40; "f_rec", 25; "tail_lo", 30; "tail_hi", 120; "nfuncs_min", 2; "nfuncs_max", 4];
+  "mix", ["pp_pipe", 8; "id_pipe", 10; "id_counter", 15; "id_adder", 10; "id_loopcap", 10; "id_reccap", 10; "id_compose", 10; "id_alias", 25;
           "id_catch", 25; "id_shadow", 15; "id_order", 20; "id_agg", 20; "shadow", 15; "catch", 20; "fault", 8;
           "it_func", 10; "t_fun", 12];
 ]
@@ -199,7 +202,8 @@ let gen_lit st =
                         big, (fun () -> Rng.pick_arr st.rng interesting) ] ()
 
 let fun_pool = [ TFun ([TInt], TInt); TFun ([], TInt); TFun ([TInt; TInt], TInt); TFun ([TInt], TBool);
-                 TFun ([TBool], TInt); TFun ([TInt], TFun ([TInt], TInt)) ]
+                 TFun ([TBool], TInt); TFun ([TInt], TFun ([TInt], TInt)); TFun ([TInt; TInt; TInt], TInt);
+                 TFun ([TInt; TBool], TInt) ]
 
 let rand_elem_type st =
   Rng.weighted st.rng [ 70, TInt; 10, TBool;
